@@ -10,6 +10,8 @@ R10.4  failures surface: no exception handler (or `with suppress(...)` around a 
 R10.7  the in-place rewriting tools of the post-processor get generated files only, never a directory obtained by climbing
 R10.8  no function on the generation path that reads a file / directory / environment / URL is memoised per process                [= R9.13]
 R10.9  the non-force comparison leaves no generated file out (no filtered file list, no skip in the loop)                        [= R9.4]
+R10.10 both generation branches create ancestor __init__.py files for the same directories (an unchanged nested-core client matches)    [= R9.10]
+R10.11 every ruff sub-process is started with `--no-cache` (no `.ruff_cache/` in the project root / current directory)
 R10.5  temp cleanup is structural (`with tempfile.TemporaryDirectory()` encloses all temp generation) and the
        diff result raises before anything else happens
 """
@@ -408,6 +410,11 @@ def run(repo: Repo, rep: Report, tier: str) -> None:
 
     rule_no_memoised_outside_reads(repo, rep, "R10.8")
     rule_show_diffs_compares_all(repo, rep, "R10.9")
+    # R10.10: "on a match it succeeds" - both branches create the ancestor __init__.py files of the same directories               [= R9.10]
+    from rules._reuse import reuse as _reuse1010
+
+    _reuse1010(repo, rep, "c09", {"R9.10": "R10.10"})
+    rule_formatter_writes_no_cache(repo, rep, "R10.11")
 
     # ---------------------------------------------------------------- R10.2 / R10.3 sinks over the generation path
     live = repo.import_closure(["generator.client_generator"])
@@ -768,3 +775,45 @@ def rule_postprocess_targets_are_files(repo: Repo, rep, rule: str = "R10.7") -> 
                               f"`{norm(c.args[0])[:40]}` can hold a path obtained through `{norm(w)[:40]}`: the tool then walks that directory and rewrites files the "
                               "generator never wrote (hand-written modules next to the output package)", run.loc(c))
     rep.require(n >= 3, f"{rule}: only {n} calls of rewriting tool wrappers found in PostprocessManager.run (floor 3)")
+
+
+# ------------------------------------------------------------------------------------------------ R10.11 the formatter leaves nothing behind
+_R1011_EXAMPLE = '''
+def fmt(targets):
+    subprocess.run([sys.executable, "-m", "ruff", "format"] + [str(t) for t in targets])
+'''
+
+
+def _ruff_calls_with_cache(tree: ast.AST):
+    """argv lists of `ruff` sub-process calls that do not pass `--no-cache` (nor point `--cache-dir` somewhere): ruff then writes a
+    `.ruff_cache` directory into the project root it discovers for the files, or into the current working directory."""
+    out, n = [], 0
+    for c in ast.walk(tree):
+        if not (isinstance(c, ast.Call) and (dotted(c.func) or "").split(".")[-1] in ("run", "Popen", "check_call", "check_output", "call") and c.args):
+            continue
+        consts = [x.value for x in ast.walk(c.args[0]) if isinstance(x, ast.Constant) and isinstance(x.value, str)]
+        if "ruff" not in consts:
+            continue
+        n += 1
+        if not any(v == "--no-cache" or v.startswith("--cache-dir") for v in consts):
+            out.append(c)
+    return out, n
+
+
+def rule_formatter_writes_no_cache(repo: Repo, rep, rule: str = "R10.11") -> None:
+    """Post-processing runs ruff on the generated files - in compare-only mode on the files of the temporary tree.  Without `--no-cache` ruff
+    creates `.ruff_cache/` in the project root it resolves for those files or, for files below the system temp directory, in the current
+    working directory: with the documented invocation (`--project-root .`) a no-force run that changes nothing still creates a directory
+    under the project root, and a forced run writes outside the output and core packages."""
+    hz, n = _ruff_calls_with_cache(ast.parse(_R1011_EXAMPLE))
+    rep.require(len(hz) == 1 and n == 1, f"{rule}: the built-in positive example is no longer recognised - the rule is broken")
+    pm = repo.module("core.postprocess_manager")
+    hz, n = _ruff_calls_with_cache(pm.tree)
+    rep.count(f"{rule}:ruff_invocations", n)
+    rep.require(n >= 3, f"{rule}: only {n} ruff invocations found in the post-processor (floor 3)")
+    for c in hz:
+        rep.violation(rule, f"{pm.relpath}:{c.lineno} ruff invocation", f"{pm.name}|ruff-with-cache|L{[x.value for x in ast.walk(c.args[0]) if isinstance(x, ast.Constant) and isinstance(x.value, str)][3:5]}",
+                      "ruff is started without `--no-cache`: it creates `.ruff_cache/` in the project root (or the current directory) - a write outside the output and core "
+                      "packages, also in a no-force run that reports no differences", f"{pm.relpath}:{c.lineno}")
+    if not hz and n:
+        rep.ok(rule, f"{pm.relpath} ruff invocations", f"all {n} pass `--no-cache`", f"{pm.relpath}:1")
